@@ -188,6 +188,12 @@ class C15:
             if ok:
                 w.violation('wrong_passphrase_returns_key', {'ec_multiplied': priv is None},
                             'passphrase %r instead of %r returned key with address %s' % (wrong, pw, k.address()))
+            if cls == 'Key' and ch.coin('cross_class', 0.4):
+                # the same string offered to the other key class with the wrong passphrase must not yield a key either
+                ok, k2, _ = self.call('decrypt_wrong_hdkey', lambda: K.HDKey(enc, password=wrong, network=self.network))
+                if ok and ((priv is not None and k2.private_hex != priv) or (priv is None and k2.address() != address)):
+                    w.violation('wrong_passphrase_returns_key', {'ec_multiplied': priv is None, 'api': 'HDKey'},
+                                'HDKey(<bip38>, password=%r) instead of %r returned another key' % (wrong, pw))
             if priv is None and ch.coin('module_level', 0.5):
                 # the EC-multiplied branch of the module-level function verifies the address hash itself
                 ok, r, _ = self.call('bip38_decrypt_wrong', lambda: K.bip38_decrypt(enc, wrong))
